@@ -106,6 +106,8 @@ def make_config(rng, focus=None):
         # also after an auth switch (the default plugin's state from the handshake must not be asked again)
         kinds = [k for k in kinds if k not in ("native", "custom2")]
         kinds = ["native"] + kinds + ["custom2"] if rng.random() < 0.7 else ["clear"] + [k for k in kinds if k != "clear"] + ["custom2"]
+    if focus == "switchlogin":
+        kinds = ["native", "clear"] + [k for k in kinds if k not in ("native", "clear")]
     if focus == "clear":
         # the clear-password plugin is consulted: as the default plugin (optimistic route) or after a switch
         kinds = [k for k in kinds if k != "clear"]
@@ -196,6 +198,8 @@ def native_resp(rng, strategy, nonce, meta):
         return good + rng.randbytes(rng.randrange(1, 6))
     if strategy == "empty":
         return b""
+    if strategy == "zeros":
+        return scramble(pw, b"0" * 20)          # a proof for the constant filler another plugin sends, not for this connection's nonce
     if strategy == "nuls":
         return b"\0" * rng.choice([1, 3, 20])       # neither empty nor a scramble
     return rng.randbytes(20)
@@ -286,6 +290,13 @@ async def run_case(chk, rng, lines, impl, sha_lines, sha_impl, focus=None):
             if scramble(meta["pw"].encode("utf8"), cand).endswith(b"\0" * want_tail):
                 FakeSystemRandom.forced = [ALPHA.index(bytes([b])) if isinstance(ALPHA, (bytes, bytearray)) else list(ALPHA).index(b) for b in cand]
                 break
+    if focus == "switchlogin":
+        # the connection logged in THROUGH AN AUTH SWITCH to another plugin (which sent its own plugin data); a later
+        # COM_CHANGE_USER to a native account is still judged against the nonce of this connection's greeting
+        route = "change_user"
+        user_key = rng.choice(["bob", "bob", "nopw", "dflt"])
+        strategy = rng.choice(["right", "right", "zeros", "othernonce", "dflt"])
+        announce = "mysql_native_password"
     if focus == "multi":
         user_key = "cust"
         strategy = rng.choice(["empty", "empty", "right", "wrong", "junk", "wrong2", "trunc"])
@@ -343,7 +354,16 @@ async def run_case(chk, rng, lines, impl, sha_lines, sha_impl, focus=None):
         optimistic = (default_client is None or default_client == announce)
     else:
         # log in first as dflt (always resolves to the default plugin) using whatever that plugin needs
-        ok = await login_default(a, plugins, greet_data)
+        if focus == "switchlogin":
+            await a.send(pkt(1, hs_response("carl", auth=b"x" * 20, plugin="mysql_native_password")))
+            o = a.take()
+            ok = False
+            if o and o[-1][1][:1] == b"\xfe":
+                await a.send(pkt(o[-1][0] + 1, b"secret\0"))
+                o = a.take()
+                ok = bool(o) and o[-1][1][:1] == b"\x00"
+        else:
+            ok = await login_default(a, plugins, greet_data)
         if not ok:
             await a.finish()
             return
@@ -608,6 +628,8 @@ def main():
             await run_case(chk, rng, lines, impl, sha_lines, sha_impl, focus="clear")
         for k in range(60 if not chk.thorough else 4000):
             await run_case(chk, rng, lines, impl, sha_lines, sha_impl, focus="multi")
+        for k in range(40 if not chk.thorough else 3000):
+            await run_case(chk, rng, lines, impl, sha_lines, sha_impl, focus="switchlogin")
         for k in range(24 if not chk.thorough else 1500):
             await run_case(chk, rng, lines, impl, sha_lines, sha_impl, focus="nul")
             FakeSystemRandom.forced = []
